@@ -3,9 +3,13 @@
    the four repairs (9ff7c19 ReleaseBuckets, 290ab18 recover, b9905fa save re-homes the entry, save does its
    Add before the unlock) and outside the domain.
    All theorems are about [run] = the interleaving semantics of Model.v over arbitrary label lists,
-   the same [step] function that the correspondence run (CaseDefs.v, exec_ev) executes. *)
+   the same [step] function that the correspondence run (CaseDefs.v, exec_ev) executes.
+   The waiter's path of getOrCreate is three labels of that relation: the locked lookup (PStart false -> PWait e),
+   wg.Wait() returning (PWait e -> hit | PStart true = PRetry), and the re-lock that RE-EXAMINES payload[key]
+   (PStart true -> hit | wait again | create) — the `for ok` loop; any label (a third caller, a cleaning pass, ...)
+   may stand between them. *)
 From Coq Require Import List ZArith Permutation Lia.
-From C18 Require Import Model ProofsRelease ProofsManaged ProofsCoherent ProofsPayload ProofsAcct ProofsBound ProofsListing ProofsFull.
+From C18 Require Import Model ProofsRelease ProofsManaged ProofsCoherent ProofsPayload ProofsAcct ProofsBound ProofsListing ProofsFull ProofsSingle.
 Import ListNotations.
 
 (* Coherence, all interleavings (no domain restriction): a lookup that returned a value returned a
@@ -92,8 +96,64 @@ Theorem C18_rebuild_identity : forall c st,
 Proof. exact (fun c st => conj (rebuild_id c) (clean_cache_v_repaired c st)). Qed.
 Print Assumptions C18_rebuild_identity.
 
+(* Single flight and no orphaned entry, all interleavings inside the domain: a key is attached to at most one entry of
+   its cache's payload; a goroutine inside its loader owns a still-loading entry of its own cache and key; of two
+   goroutines inside their loaders for the same cache and key at most one has its entry in the map; and an entry that
+   is not in the map but carries a size was marked deleted by a cleaning pass or belongs to a released cache (nothing
+   else takes an entry out of the map: no creator ever writes over a key that is present). *)
+Theorem C18_single_flight : forall lim mg es ls st,
+  run (init lim mg es) ls = Some st -> race_free (init lim mg es) ls = true -> single_flight st.
+Proof. exact single_flight_reachable. Qed.
+Print Assumptions C18_single_flight.
+
 (* ------------------------------------------------------------------ examples *)
 Open Scope Z_scope.
+
+(* a seeded regression (never in /repo's history; round-5 seed C18-m9): the waiter's retry loop of getOrCreate
+   `for ok { ...; c.mu.Lock(); e, ok = c.payload[key] }` turned into `if ok { ...; c.mu.Lock() }` falling through to the
+   create code. Three callers of one key: A's loader fails while B waits for it; B is woken (PRetry); before B re-takes
+   the lock, C looks the key up, loads it and caches it (168 bytes, accounted); B then installs a fresh loading entry
+   OVER C's valid one without looking: C's entry is orphaned (not attached, not deleted, cache not released, size 168
+   still accounted), B loads the key a second time and returns its own value 7 where C returned 8:
+   accounted 336, live 168. With the loop (the code as it is) B is served from C's entry: value 8, 168 = 168. *)
+Definition w_retry := [LNewCache; LSpawn 0 1 OErr; LStep 0; LSpawn 0 1 (OVal 7 100); LStep 1; LStep 0; LStep 1;
+  LSpawn 0 1 (OVal 8 100); LStep 2; LStep 2; LStep 2; LStep 1].
+Definition v_m9 := mkV true true true true true true false.
+Example C18_retry_without_recheck_refuted :
+  race_free (init 2000 100 68) (w_retry ++ [LStep 1; LStep 1]) = true /\
+  (exists st, run_v v_m9 (init 2000 100 68) (w_retry ++ [LStep 1; LStep 1]) = Some st /\
+              map tpc (threads st) = [PDone RErr; PDone (RVal 7); PDone (RVal 8)] /\ acct st = 336 /\ live st = 168 /\
+              ~ single_flight st) /\
+  (exists st, run (init 2000 100 68) w_retry = Some st /\
+              map tpc (threads st) = [PDone RErr; PDone (RVal 8); PDone (RVal 8)] /\ acct st = 168 /\ live st = 168).
+Proof.
+  split; [vm_compute; reflexivity|]. split.
+  - eexists. split; [vm_compute; reflexivity|]. repeat split; try (vm_compute; reflexivity).
+    intros [_ _ _ O]. assert (N : 168 <> 0) by discriminate.
+    destruct (O 1%nat _ eq_refl eq_refl N) as [D|D]; discriminate.
+  - eexists. split; [vm_compute; reflexivity|]. repeat split; vm_compute; reflexivity.
+Qed.
+
+(* the same with C still inside its loader when B re-takes the lock (A panics): the `if ok` variant has two loaders of
+   one key in flight, both entries created without a cleaning pass in between, C's no longer in the map (single flight
+   broken); the loop makes B wait for C (PWait 1) *)
+Definition w_retry_loading := [LNewCache; LSpawn 0 1 OPanic; LStep 0; LSpawn 0 1 (OVal 7 100); LStep 1; LStep 0; LStep 1;
+  LSpawn 0 1 (OVal 8 100); LStep 2; LStep 1].
+Example C18_retry_without_recheck_two_loaders :
+  (exists st, run_v v_m9 (init 2000 100 68) w_retry_loading = Some st /\
+              map tpc (threads st) = [PDone RPanic; PLoad 2; PLoad 1] /\
+              map eattached (entries st) = [false; false; true]) /\
+  (exists st, run (init 2000 100 68) w_retry_loading = Some st /\
+              map tpc (threads st) = [PDone RPanic; PWait 1; PLoad 1] /\
+              map eattached (entries st) = [false; true]).
+Proof. split; eexists; (split; [vm_compute; reflexivity|split; vm_compute; reflexivity]). Qed.
+
+(* non-vacuity of C18_single_flight: the three-caller schedule is inside the domain and passes through PRetry *)
+Example C18_single_flight_nonvacuous :
+  race_free (init 2000 100 68) w_retry = true /\
+  (exists st, run (init 2000 100 68) (firstn 11 w_retry) = Some st /\ thread_pc st 1 = Some PRetry) /\
+  exists st, run (init 2000 100 68) w_retry = Some st.
+Proof. split; [vm_compute; reflexivity|]. split; eexists; [split|]; vm_compute; reflexivity. Qed.
 
 (* defect #8 (before 9ff7c19): buckets [A,B,C,D], B and D released => [A,D]: live C dropped, released D kept *)
 Example C18_refuted_swap_last :
@@ -102,7 +162,7 @@ Proof. split; vm_compute; reflexivity. Qed.
 
 Definition w_release := [LNewCache; LNewCache; LNewCache; LNewCache; LRelease 1; LRelease 3; LRelCollect; LRelRemove].
 Example C18_release_buckets_v0_refuted :
-  exists st, run_v (mkV true true false true true true) (init 0 0 68) w_release = Some st /\
+  exists st, run_v (mkV true true false true true true true) (init 0 0 68) w_release = Some st /\
              is_released (caches st) 2 = false /\ ~ In 2%nat (buckets st).
 Proof. eexists. split; [vm_compute; reflexivity|]. split; [reflexivity|]. simpl. intuition discriminate. Qed.
 
@@ -112,7 +172,7 @@ Definition w_recover := [LNewCache; LSpawn 0 7 (OVal 1 100); LStep 0; LStep 0; L
   LCleanBegin; LCleanCache 0; LSpawn 0 1 (OVal 2 50); LStep 2; LStep 2; LStep 2; LStep 1].
 Example C18_recover_v0_refuted :
   race_free (init 1 0 68) w_recover = true /\
-  (exists st, run_v (mkV false true true true true true) (init 1 0 68) w_recover = Some st /\ acct st = 118 /\ live st = 0) /\
+  (exists st, run_v (mkV false true true true true true true) (init 1 0 68) w_recover = Some st /\ acct st = 118 /\ live st = 0) /\
   (exists st, run (init 1 0 68) w_recover = Some st /\ acct st = 118 /\ live st = 118).
 Proof. split; [vm_compute; reflexivity|]. split; eexists; (split; [vm_compute; reflexivity|split; vm_compute; reflexivity]). Qed.
 
@@ -122,7 +182,7 @@ Definition w_save := [LNewCache; LSpawn 0 7 (OVal 1 100); LStep 0; LStep 0; LSte
   LRotate; LSpawn 0 7 (OVal 3 100); LStep 2; LGcGens; LStep 1; LStep 1].
 Example C18_save_v0_refuted :
   race_free (init 2000 100 68) w_save = true /\
-  (exists st, run_v (mkV true false true true true true) (init 2000 100 68) w_save = Some st /\ acct st = 168 /\ live st = 286) /\
+  (exists st, run_v (mkV true false true true true true true) (init 2000 100 68) w_save = Some st /\ acct st = 168 /\ live st = 286) /\
   (exists st, run (init 2000 100 68) w_save = Some st /\ acct st = 286 /\ live st = 286).
 Proof. split; [vm_compute; reflexivity|]. split; eexists; (split; [vm_compute; reflexivity|split; vm_compute; reflexivity]). Qed.
 
@@ -142,7 +202,7 @@ Definition w_gc_pending := [LNewCache; LSpawn 0 2 (OVal 1 200); LStep 0; LStep 0
   LStep 1; LStep 1; LRotate; LSpawn 0 2 (OVal 3 1); LStep 2; LGcGens; LStep 1].
 Example C18_save_add_after_unlock_v0_refuted :
   race_free (init 2000 100 68) w_gc_pending = true /\
-  (exists st, run_v (mkV true true true false true true) (init 2000 100 68) w_gc_pending = Some st /\ acct st = 268 /\ live st = 386) /\
+  (exists st, run_v (mkV true true true false true true true) (init 2000 100 68) w_gc_pending = Some st /\ acct st = 268 /\ live st = 386) /\
   (exists st, run (init 2000 100 68) w_gc_pending = Some st /\ acct st = 386 /\ live st = 386).
 Proof. split; [vm_compute; reflexivity|]. split; eexists; (split; [vm_compute; reflexivity|split; vm_compute; reflexivity]). Qed.
 
@@ -182,7 +242,7 @@ Definition w_rebuild := LNewCache :: fill_labels 200 ++
   [LRotate; LSpawn 0 1 (OVal 999 50); LStep 200; LCleanBegin; LCleanCache 0; LSpawn 0 1 (OVal 998 50); LStep 201; LStep 200; LStep 200].
 Example C18_rebuild_skips_loading_v0_refuted :
   race_free (init 13500 675 68) w_rebuild = true /\
-  (exists st, run_v (mkV true true true true true false) (init 13500 675 68) w_rebuild = Some st /\ nrec st = 1 /\
+  (exists st, run_v (mkV true true true true true false true) (init 13500 675 68) w_rebuild = Some st /\ nrec st = 1 /\
               thread_pc st 201 = Some (PLoad 201) /\ acct st = 118 /\ live st = 0) /\
   (exists st, run (init 13500 675 68) w_rebuild = Some st /\ nrec st = 1 /\
               thread_pc st 201 = Some (PWait 200) /\ acct st = 118 /\ live st = 118).
@@ -202,7 +262,7 @@ Definition w_rotate := [LNewCache; LSpawn 0 1 (OVal 1 200); LStep 0; LStep 0; LS
   LSpawn 1 1 (OVal 3 400); LStep 2; LStep 2; LStep 2; LCleanBegin].
 Example C18_rotate_split_v0_refuted :
   race_free (init 500 25 68) w_rotate = true /\
-  (exists st, run_v (mkV true true true true false true) (init 500 25 68) w_rotate = Some st /\
+  (exists st, run_v (mkV true true true true false true true) (init 500 25 68) w_rotate = Some st /\
               map ccur (caches st) = [1; 0]%nat /\ lastgen st = 1%nat /\ acct st = 368 /\ live st = 836 /\ ret st = [0]) /\
   (exists st, run (init 500 25 68) w_rotate = Some st /\
               map ccur (caches st) = [2; 2]%nat /\ lastgen st = 2%nat /\ hd 0 (ret st) = 1).
